@@ -696,12 +696,25 @@ class Sim:
             if lo + d < 0 or hi + d > 5:
                 return
             ids = [id(x[2]) for x in self.desc if x[0] == 'measure']
-            if len(ids) != len(set(ids)):
-                return  # a MeasureGate shared through extend_circuit cannot be shifted (numqi asserts); unspecified, not claimed
+            shared = len(ids) != len(set(ids))
             try:
                 c.shift_qubit_index_(d)
+            except AssertionError as e:
+                if not shared:
+                    raise Violation('unexpected_exception', 'Circuit.shift_qubit_index_', f'{type(e).__name__}: {e}')
+                # a MeasureGate shared through extend_circuit: numqi refuses the shift with an assertion half-way through its loop.
+                # A refusal is legitimate (the operation may fail, it may never measure the wrong qubits); the half-shifted
+                # circuit is dropped by its user. An *accepted* shift must move every occurrence by delta (checked below and by
+                # every later run).
+                self.bump('shift_shared_refused')
+                self.log.add('shift_refused', d)
+                self.circ, self.desc, self.mgates = None, [], []
+                self.shape.append('r')
+                return
             except Exception as e:
                 raise Violation('unexpected_exception', 'Circuit.shift_qubit_index_', f'{type(e).__name__}: {e}')
+            if shared:
+                self.bump('shift_shared_accepted')
             nd = []
             seen_cc = set()
             for x in self.desc:
